@@ -22,6 +22,8 @@ struct TcpConn {
     QByteArray inbox;        // delivered to the socket, not yet read by the library
     QByteArray written;      // everything the library wrote, in order
     int writes = 0;
+    QByteArray outbox;       // buffered mode: written by the library, not yet taken by the network (bytesToWrite())
+    bool localClosed = false;
 };
 
 class TcpNet
@@ -33,6 +35,12 @@ public:
     QList<TcpConn *> conns;
     std::function<void(TcpConn *)> onConnectRequested;
     std::function<void(TcpConn *, const QByteArray &)> onWrite;
+    // buffered mode (topology 4 of C19): writes stay in the connection's outbox until the world drains them; the bytes
+    // then reach onWire and the socket emits bytesWritten(). flush() and a local close push the whole outbox to the wire.
+    bool buffered = false;
+    std::function<void(TcpConn *, const QByteArray &)> onWire;
+    std::function<void(TcpConn *)> onLocalClose;
+    void drain(TcpConn *c, int maxBytes, bool announce = true);
 
     TcpConn *find(const QAbstractSocket *s);
     void resolveConnect(TcpConn *c, bool ok);   // outcome of connectToHost
